@@ -77,14 +77,14 @@ theorem getTestID_tied (b : Text) :
     Generated.Funcs.getTestID b =
       if getTestIDPanics b then none
       else some (match GoSnaps.getTestID b with | some id => (id, true) | none => ([], false)) := by
-  have hp : Generated.headerPrefix = [91, 84, 101, 115, 116] := by decide
+  have hp : Generated.headerPrefix = [91] := by decide
   have hs : Generated.idSep = [32, 45, 32] := by decide
   unfold Generated.Funcs.getTestID GoSnaps.getTestID getTestIDPanics
   simp only [hp, hs, GoSem.index_len_sub_one, isNumber_tied, GoSem.indexInt]
   cases b with
   | nil => simp [GoSem.len]
   | cons x xs =>
-    cases hpre : hasPrefix (x :: xs) [91, 84, 101, 115, 116]
+    cases hpre : hasPrefix (x :: xs) [91]
     · simp [GoSem.len]
     · cases hl : (x :: xs).getLast? with
       | none => simp at hl
